@@ -6,6 +6,8 @@ CONSTANTS
   ChainLen = 14
   Win = 1
   Spread = 1
+  Fracs = {0, 1, 2, 3}
+  FracSpread = 4
   TwoRegime = FALSE
 INVARIANTS WellFormed TimeRule EraOrder Crossing Emit
 CHECK_DEADLOCK FALSE
